@@ -188,7 +188,7 @@ theorem attrToks_ok (a b : Nat) : ∀ k ∈ attrToks a b, TokOk dec tw k := by
   exact isAttrTok_ok dec tw k (hall k hk)
 
 theorem penDelta_ok (caps : Caps) (pen next : Style) (hsu : caps.styledUnderlines = true → next.ulStyle ≤ 5)
-    (h0 : 59 ∉ dec "") (hlp : 59 ∉ dec next.linkParams) :
+    (hdec : ∀ s, 59 ∉ dec (lpField s)) :
     ∀ k ∈ penDelta caps pen next, TokOk dec tw k := by
   intro k hk
   unfold penDelta at hk
@@ -217,17 +217,21 @@ theorem penDelta_ok (caps : Caps) (pen next : Style) (hsu : caps.styledUnderline
     · simp at h; subst h
       show Osc8Ok dec _ _
       constructor
-      · split
-        · exact h0
-        · exact hlp
-      · intro hu; simp [hu]
+      · exact hdec _
+      · intro hu; simp only [hu, if_true]; rfl
     · simp at h
 
 /-- What the composition needs of one application cell: the width function gives the grapheme a
-    width ≤ 2, a grapheme with a positive width has bytes, and the hyperlink parameter string
-    contains no `;`. -/
+    width ≤ 2, and a grapheme with a positive width has bytes. (Until the F112b repair, /repo 3525279,
+    also: the hyperlink parameter string contains no `;` — `render()` now writes the parameter field up to
+    the first `;`, `Model.Render.lpField`.) -/
 def CellOk (dec : String → G) (cw : String → Nat) (c : Cell) : Prop :=
-  cw c.g ≤ 2 ∧ (cw c.g ≠ 0 → dec c.g ≠ []) ∧ 59 ∉ dec c.style.linkParams
+  cw c.g ≤ 2 ∧ (cw c.g ≠ 0 → dec c.g ≠ [])
+
+/-- What the composition needs of the byte decoding of the renderer model's opaque strings: the OSC 8
+    parameter field the renderer writes (`lpField`, cut before the first byte-aligned `3b`) decodes to
+    bytes without `;`. True of the hex decoding (`Lemmas.RenderLink.lpField_no_semicolon`). -/
+def LpOk (dec : String → G) : Prop := ∀ s, 59 ∉ dec (lpField s)
 
 theorem glyphTok_ok (cw : String → Nat) (caps : Caps) (hew : caps.explicitWidth = false) (c : Cell)
     (hsp : cw "20" = 1) (hd : dec "20" ≠ []) (hc : CellOk dec cw c) : TokOk dec cw (glyphTok cw caps c) := by
@@ -235,7 +239,7 @@ theorem glyphTok_ok (cw : String → Nat) (caps : Caps) (hew : caps.explicitWidt
   split
   · exact ⟨by rw [hsp]; omega, fun _ => hd⟩
   · simp only [hew, Bool.false_eq_true, and_false, if_false]
-    exact ⟨hc.1, hc.2.1⟩
+    exact ⟨hc.1, hc.2⟩
 
 theorem close_ok (h0 : 59 ∉ dec "") : TokOk dec tw (Tok.osc8 "" "") := ⟨h0, fun _ => rfl⟩
 
@@ -243,7 +247,7 @@ theorem close_ok (h0 : 59 ∉ dec "") : TokOk dec tw (Tok.osc8 "" "") := ⟨h0, 
 
 theorem renderCells_ok (cw : String → Nat) (caps : Caps)
     (hew : caps.explicitWidth = false) (hsp : cw "20" = 1) (hd : dec "20" ≠ []) (h0 : 59 ∉ dec "")
-    (refresh : Bool) (row : Nat) :
+    (hdec : LpOk dec) (refresh : Bool) (row : Nat) :
     ∀ (next last : List Cell) (col skip : Nat) (track : Bool) (dirty : Nat) (st : RSt),
       (∀ c ∈ next, CellOk dec cw c) →
       (caps.styledUnderlines = true → ∀ c ∈ next, c.style.ulStyle ≤ 5) →
@@ -279,12 +283,12 @@ theorem renderCells_ok (cw : String → Nat) (caps : Caps)
                   subst hk; exact close_ok dec cw h0
                 · subst hk; trivial
               · simp at hk
-            · exact penDelta_ok dec cw caps _ _ (fun hs => hu hs n (by simp)) h0 (hc n (by simp)).2.2 k hk
+            · exact penDelta_ok dec cw caps _ _ (fun hs => hu hs n (by simp)) hdec k hk
             · subst hk; exact glyphTok_ok dec cw caps hew n hsp hd (hc n (by simp))
 
 theorem renderRows_ok (cw : String → Nat) (caps : Caps)
     (hew : caps.explicitWidth = false) (hsp : cw "20" = 1) (hd : dec "20" ≠ []) (h0 : 59 ∉ dec "")
-    (refresh : Bool) :
+    (hdec : LpOk dec) (refresh : Bool) :
     ∀ (next last : Grid) (row : Nat) (st : RSt),
       (∀ r ∈ next, ∀ c ∈ r, CellOk dec cw c) →
       (caps.styledUnderlines = true → ∀ r ∈ next, ∀ c ∈ r, c.style.ulStyle ≤ 5) →
@@ -300,7 +304,7 @@ theorem renderRows_ok (cw : String → Nat) (caps : Caps)
     | cons l ls =>
       simp only [renderRows]
       apply ih _ _ _ (fun r hr => hc r (by simp [hr])) (fun hs r hr => hu hs r (by simp [hr]))
-      exact renderCells_ok dec cw caps hew hsp hd h0 refresh row n l 0 0 false 0 { st with reposition := true }
+      exact renderCells_ok dec cw caps hew hsp hd h0 hdec refresh row n l 0 0 false 0 { st with reposition := true }
         (hc n (by simp)) (fun hs => hu hs n (by simp)) h
 
 /-! ### the frame -/
@@ -319,7 +323,7 @@ theorem showCursor_ok (c : CursorState) (hs : c.style ≤ 65535) : ∀ k ∈ sho
 theorem frame_ok_anyCaps (cw : String → Nat) (f : Frame)
     (hul : f.caps.styledUnderlines = true → ∀ r ∈ f.next, ∀ c ∈ r, c.style.ulStyle ≤ 5)
     (hew : f.caps.explicitWidth = false) (hsy : f.caps.sync = false)
-    (hsp : cw "20" = 1) (hd : dec "20" ≠ []) (h0 : 59 ∉ dec "")
+    (hsp : cw "20" = 1) (hd : dec "20" ≠ []) (h0 : 59 ∉ dec "") (hdec : LpOk dec)
     (hc : ∀ r ∈ f.next, ∀ c ∈ r, CellOk dec cw c) (hs : f.cursorNext.style ≤ 65535) :
     ∀ k ∈ (renderFrame cw f).2, TokOk dec cw k := by
   have hbody : ∀ k ∈ (renderBody cw f).2, TokOk dec cw k := by
@@ -327,7 +331,7 @@ theorem frame_ok_anyCaps (cw : String → Nat) (f : Frame)
     unfold renderBody at hk
     simp only [List.mem_append] at hk
     rcases hk with (hk | hk) | hk
-    · refine renderRows_ok dec cw f.caps hew hsp hd h0 f.refresh f.next f.last 0 _ hc hul ?_ k hk
+    · refine renderRows_ok dec cw f.caps hew hsp hd h0 hdec f.refresh f.next f.last 0 _ hc hul ?_ k hk
       intro k' hk'
       simp only at hk'
       split at hk' <;> simp at hk'
@@ -360,17 +364,17 @@ theorem frame_ok_anyCaps (cw : String → Nat) (f : Frame)
 /-- The round-3 signature: no styled underlines (then nothing is asked of the cells' underline styles). -/
 theorem frame_ok_anyRgb (cw : String → Nat) (f : Frame) (hsu : f.caps.styledUnderlines = false)
     (hew : f.caps.explicitWidth = false) (hsy : f.caps.sync = false)
-    (hsp : cw "20" = 1) (hd : dec "20" ≠ []) (h0 : 59 ∉ dec "")
+    (hsp : cw "20" = 1) (hd : dec "20" ≠ []) (h0 : 59 ∉ dec "") (hdec : LpOk dec)
     (hc : ∀ r ∈ f.next, ∀ c ∈ r, CellOk dec cw c) (hs : f.cursorNext.style ≤ 65535) :
     ∀ k ∈ (renderFrame cw f).2, TokOk dec cw k :=
-  frame_ok_anyCaps dec cw f (fun h => by rw [hsu] at h; cases h) hew hsy hsp hd h0 hc hs
+  frame_ok_anyCaps dec cw f (fun h => by rw [hsu] at h; cases h) hew hsy hsp hd h0 hdec hc hs
 
 /-- The same with the round-2 signature (the capability set without direct colour). -/
 theorem frame_ok (cw : String → Nat) (f : Frame) (_hrgb : f.caps.rgb = false) (hsu : f.caps.styledUnderlines = false)
     (hew : f.caps.explicitWidth = false) (hsy : f.caps.sync = false)
-    (hsp : cw "20" = 1) (hd : dec "20" ≠ []) (h0 : 59 ∉ dec "")
+    (hsp : cw "20" = 1) (hd : dec "20" ≠ []) (h0 : 59 ∉ dec "") (hdec : LpOk dec)
     (hc : ∀ r ∈ f.next, ∀ c ∈ r, CellOk dec cw c) (hs : f.cursorNext.style ≤ 65535) :
     ∀ k ∈ (renderFrame cw f).2, TokOk dec cw k :=
-  frame_ok_anyRgb dec cw f hsu hew hsy hsp hd h0 hc hs
+  frame_ok_anyRgb dec cw f hsu hew hsy hsp hd h0 hdec hc hs
 
 end VaxisModel.Lemmas.C12Vocab
